@@ -7,46 +7,46 @@ V = os.path.dirname(os.path.dirname(os.path.abspath(__file__)))
 # id: (level, technique, text, note)
 T = {
  "C01": ("exploration", "runtime differential monitor: version.Compare vs independent reference comparator and real dpkg on bounded-exhaustive + random executions",
-   "Every executed Compare call is watched by a run-based math/big reference comparator; a sample is also judged by dpkg --compare-versions and Dpkg::Version. Bounded-exhaustive over all strings <=2 (quick) / <=3 (thorough) on a class-complete alphabet in both parts, plus grammar-random and single-edit-near pairs. Held-on-observed, not a proof: longer strings are sampled, not enumerated.",
+   "Every executed Compare call is watched by a run-based math/big reference comparator; a sample is also judged by dpkg --compare-versions and Dpkg::Version. Bounded-exhaustive over all strings <=2 (quick) / <=3 (thorough) on a class-complete alphabet in both parts, plus grammar-random and single-edit-near pairs. All version pairs of the installed dpkg database, 8-goroutine concurrent batches, and one case that parses and compares 3 (thorough 30) million different versions inside one process. Held-on-observed, not a proof: longer strings are sampled, not enumerated.",
    "trusts dpkg 1.21.22 as 'dpkg' and internal/model/vercmp.go (cross-checked against dpkg at run time)"),
  "C02": ("exploration", "runtime law monitor (reflexivity, antisymmetry, transitivity, congruence) over all triples of a version pool; sort monitor with counting sort.Interface wrapper",
    "Order laws are checked on every triple of a pool of versions (exhaustive over pool^3) and on sorted slices from several shuffles; no reference model is involved, so it stays valid even if C01's model were wrong.",
-   "pool is finite (96 quick / 176 thorough versions incl. equivalence-class mates and tilde chains)"),
+   "pool is finite (156 quick / 236 thorough versions incl. equivalence-class mates, tilde chains, 19-21 digit runs, huge epochs); plus 1 (thorough 12) million different pairs compared both ways round in one process"),
  "C03": ("exploration", "runtime parse differential against a grammar model + render/re-parse round-trip monitor on every accepted string",
-   "Grammar-built strings must parse to their parts; listed invalid classes must be rejected; every accepted string must survive String/MarshalControl/MarshalText/json round trips. Thorough adds coverage-guided native fuzzing with the round-trip oracle.",
+   "Grammar-built strings must parse to their parts; listed invalid classes must be rejected; every accepted string must survive String/MarshalControl/MarshalText/json round trips. Results handed out must stay the caller's (marshalled text kept across calls, buffers not retained); 3 (30) million different texts parsed in one process; versions of the installed dpkg database. Thorough adds coverage-guided native fuzzing with the round-trip oracle.",
    "grammar model from Policy 5.6.12"),
  "C04": ("exploration", "runtime AST->text->Parse differential monitor with slot x whitespace-atom spacing matrix",
    "Dependency ASTs (bounded-exhaustive small shapes, random large ones) are rendered by an independent renderer with every legal spacing and group order and the parse result is compared structurally; listed malformed classes must be rejected with no result.",
    "legality of spacing taken from Policy 7.1/5.1 and Dpkg::Deps (thorough self-check)"),
  "C05": ("exploration", "runtime fix-point monitor on every accepted dependency string and architecture name",
-   "For every accepted input: render, re-parse, compare normalised structures, render again; exhaustive over 1..4-part architecture names from a token pool. Thorough adds native fuzzing.",
+   "For every accepted input: render, re-parse, compare normalised structures, render again; exhaustive over 1..4-part architecture names from a token pool; the caller edits an earlier result in place and parses again; 150 000 (3 million) different fields in one process; relationship fields of the installed dpkg database; 8-goroutine concurrent batches. Thorough adds native fuzzing.",
    "normalisation: nil == empty, relations without possibilities dropped"),
  "C06": ("exploration", "runtime truth-table monitor against a set-theoretic architecture model and the reference comparator",
    "Exhaustive over the 4-valued component abstraction (all concrete x pattern pairs both ways), all short arch lists x negation, ASTs x architectures for GetPossibilities, operator x sign table for SatisfiedBy.",
    "abstraction is exhaustive up to renaming because matching only tests equality with any/all"),
  "C07": ("exploration", "runtime deb822 model differential over four access paths and several reader chunkings + paragraph invariant monitor on arbitrary bytes",
-   "Generated documents are read via Next/All/Unmarshal-slice/Decoder.Decode through string, one-byte, chunked and data-with-EOF readers and compared with an independent line model; the keys(Values)==set(Order) invariant is monitored on corrupted and raw inputs (thorough: native fuzzing).",
+   "Generated documents are read via Next/All/Unmarshal-slice/Decoder.Decode through string, one-byte, chunked and data-with-EOF readers and compared with an independent line model; the keys(Values)==set(Order) invariant is monitored on corrupted and raw inputs (thorough: native fuzzing). Also: typed access paths, streams of 36-300 MiB, sources that fail once and continue, Set on every returned paragraph, 400 000 (1.5 million) different field names read in one process, the dpkg database and 516 DEP-5 files, 8-goroutine concurrent batches.",
    "independent 40-line reference reader"),
  "C08": ("exploration", "runtime write->read monitor, output-line invariant scanner and multi-cycle growth monitor",
    "Paragraphs from line sequences (incl. lines over 4 KiB) are written and read back, the written bytes are scanned for blank lines, documents are cycled 4 times, encoder call sequences (struct, pointer, slice, empty slice, all-omitted struct) are counted. Thorough adds a native fuzz target on the cycle.",
    "values with an empty first line followed by more lines are excluded (see DESIGN C08) and pinned as known findings"),
  "C09": ("exploration", "reflective marshal/unmarshal round-trip monitor on probe structs; pass-through key-order model",
-   "A reflection-driven generator fills probe structs covering each kind x tag combination; Marshal->Unmarshal must be identity, omitted/required rules and unknown-field pass-through are checked.",
+   "A reflection-driven generator fills probe structs covering each kind x tag combination; Marshal->Unmarshal must be identity, omitted/required rules (also inside a slice of paragraphs) and unknown-field pass-through are checked; the same round trip through ConvertToParagraph/UnpackFromParagraph with the converted paragraph checked for well-formedness; variables reused for the next paragraph; Marshal to writers that break down part-way.",
    "probe struct family declared in the harness"),
  "C10": ("exploration", "model -> real Debian layout -> typed parser; reflective comparison of every exported field with an independent denotation table",
-   "Per document kind a model is rendered in real layout (folded lists, checksum blocks) and the typed struct is compared field-by-field by Go field name; all struct fields must have been compared at least once.",
+   "Per document kind a model is rendered in real layout (folded lists, checksum blocks) and the typed struct is compared field-by-field by Go field name; all struct fields must have been compared at least once. Every case starts with a tiny .changes, .dsc and Sources document decoded in a seed-chosen order (process history across kinds); file entry points also through relative paths and symbolic links; the decoded value is re-compared after all accessors were called.",
    "denotation table in the harness; dpkg tools as second producers in thorough"),
  "C11": ("fault_enumeration", "tamper enumeration on clearsigned documents with a differential decode+verify oracle",
    "Every byte offset x edit kind, truncations and splices on signed documents; the library must succeed iff an independent clearsign.Decode+CheckDetachedSignature succeeds, with paragraphs equal to the model parse of the verified bytes and the right signer.",
    "trusts golang.org/x/crypto/openpgp"),
  "C12": ("exploration", "stream/chunking differential against stdlib digests; verifier truth table in journaled child processes",
-   "Hashing writers/readers are driven with all subsets of algorithms and many chunkings; verifier accept/reject is compared with digests computed directly; process exit inside Verifier is attributed by the in-flight journal.",
+   "Hashing writers/readers are driven with all subsets of algorithms and many chunkings; verifier accept/reject is compared with digests computed directly; process exit inside Verifier is attributed by the in-flight journal. Digests handed out in mid-stream must stay unchanged, a second Close must not fail a matching stream; thorough pushes 2^31+ and 2^32+ bytes through one hasher.",
    "crypto/{md5,sha1,sha256,sha512}"),
  "C13": ("exploration", "ar member-list model differential + counting ReaderAt offset monitor",
-   "Generated archives are iterated; metadata, bytes (also after the iterator advanced, via Seek and ReadAt) and header read offsets are compared with the model.",
+   "Generated archives are iterated; metadata, bytes (also after the iterator advanced, via Seek and ReadAt) and header read offsets are compared with the model; sparse archives of 2-9 GiB; a nested archive opened through a member reader after the caller sniffed its magic; 8-goroutine concurrent batches.",
    "harness ar writer"),
  "C14": ("exploration", "package model x 6x6 codec configurations (+ real dpkg-deb) differential",
-   "All control x data compression combinations, control position variants, extras; Control fields, extensions, member index and data tar listing compared with the model; repeated loads agree.",
+   "All control x data compression combinations, control position variants, extras; Control fields, extensions, member index and data tar listing compared with the model; repeated loads agree (16 loads when a member is named data or control without extension); rejected packages also through LoadFile; symbolic links; header reads that fail once.",
    "xz/bzip2/lzma CLIs, klauspost zstd and kjk lzma encoders, dpkg-deb as producers"),
  "C15": ("exploration", "step-bound, header-magic, size/delivery and determinism monitors on hostile bytes via a counting ReaderAt",
    "Structured corruption of valid archives (every header column, every truncation offset, duplicates) with a hard logical step bound of len/60+1 header reads; thorough adds native fuzzing.",
@@ -55,7 +55,7 @@ T = {
    "Every byte of the signed members and the signature is flipped; decoy control.*/data.* members and near-miss names (data-old.tar, xcontrol.tar) are inserted at every position and each archive is loaded 40 times because member choice iterates a Go map; what the loader exposed (control paragraph, payload listing, extensions) is compared with the signed members; sequences of checks (good keyring, unrelated, empty, absent/prefix roles, good again) run on one loaded Deb.",
    "trusts golang.org/x/crypto/openpgp"),
  "C17": ("fault_enumeration", "changelog entry-list model differential + every-prefix truncation monitor",
-   "Generated changelogs must parse to the model; every prefix must give either an error or exactly the entries complete in it.",
+   "Generated changelogs must parse to the model; every prefix must give either an error or exactly the entries complete in it. The process time zone varies per case (fixed zones and zones with daylight saving); FIFOs, one-byte and failing sources; the 707 installed changelog.Debian.gz files against dpkg-parsechangelog.",
    "entry-list model; dpkg-parsechangelog validates the generator in thorough"),
  "C18": ("exploration", "panic/fatal/CPU-budget/determinism monitors on hostile inputs; Go race detector on concurrent calls",
    "All parser entry points (and the accessors derived from typed documents) are driven with generator outputs and mutants; value-xor-error, repeat determinism, receiver-reuse and result-aliasing independence, and 16-goroutine concurrent determinism (concurrent round first, on never-seen names) are checked in a -race build whose report blocks are counted; a non-returning call is cut by a per-case stall watchdog and confirmed under a 60 s CPU limit. Thorough adds a native fuzz target.",
@@ -64,7 +64,7 @@ T = {
    "Random acyclic/cyclic build-dependency graphs rendered as multi-binary .dsc text; any topological order of the model's effective edges is accepted, cycles must error, repeated runs agree.",
    "model edge = first non-substvar alternative admitted for the architecture"),
  "C20": ("fault_enumeration", "inotify order monitor, tree snapshots, environmental and strace-injected syscall faults",
-   "Copy/Move/Remove on .dsc/.changes with k referenced files; a failure is injected at each file and at the control file (missing source, occupied/missing destination, RLIMIT_FSIZE cut of the control-file copy, fresh and pre-populated destinations); inotify event order, pre/post tree hashes, hostile listed names (also only in checksum fields) and second operations on the same handle are checked. Thorough adds an strace dry-run order/path monitor and copy_file_range/rename/unlink failures at every index.",
+   "Copy/Move/Remove on .dsc/.changes with k referenced files; a failure is injected at each file and at the control file (missing source, occupied/missing destination, RLIMIT_FSIZE cut of the control-file copy, fresh and pre-populated destinations); inotify event order, pre/post tree hashes, hostile listed names (also only in checksum fields; also the bare . and ..), destinations spelled d/, d/. and d/sub/.., relative paths under another working directory, a control file reached through a symbolic link, GOMAXPROCS(1) and second operations on the same handle are checked. Thorough adds an strace dry-run order/path monitor and copy_file_range/rename/unlink failures at every index.",
    "Linux inotify/strace semantics"),
 }
 
